@@ -208,8 +208,44 @@ func (g *gen) optws() string {
 }
 
 func (g *gen) word() string {
+	if g.r.Intn(5) == 0 {
+		return g.wild()
+	}
 	opts := []string{"a", "bb", "ccc", "é", "日本", "k:v", "/p/q", "x-y", "+", "p+q", "1..5", "*", "𝔘x", "a/b", "..", "min..max"}
 	return opts[g.r.Intn(len(opts))]
+}
+
+// wild is an unquoted token of one to three characters from all over Unicode, biased
+// towards code points that a byte-minded lexer confuses with syntax: those whose low
+// byte is a blank, a quote or a punctuation character (U+4E0D ends in 0x0D, U+2020 in
+// 0x20, U+013B in ';' ...), the replacement character (what a decoder returns for broken
+// input, but also a character of its own), NUL, the byte-order mark, Unicode blanks and
+// line separators (which are not YANG white space), and the last code points of planes.
+func (g *gen) wild() string {
+	var out []rune
+	for n := 1 + g.r.Intn(3); n > 0; n-- {
+		var c rune
+		switch g.r.Intn(4) {
+		case 0:
+			low := []rune{0x09, 0x0a, 0x0d, 0x20, 0x22, 0x27, 0x3b, 0x7b, 0x7d, 0x2f, 0x2a, 0x2b, 0x5c}[g.r.Intn(13)]
+			hi := rune(1 + g.r.Intn(0x10ff))
+			c = hi<<8 | low
+		case 1:
+			c = []rune{0xfffd, 0xfffd, 0, 0xfeff, 0x85, 0xa0, 0x2028, 0x2029, 0x2009, 0x200a, 0x200d, 0x3000, 0x1680, 0xffff, 0x10ffff, 0x7f, 0x1f, 0xb, 0xc, 0x1ffff, 0xd7ff, 0xe000}[g.r.Intn(22)]
+		case 2:
+			c = rune(g.r.Intn(0x110000))
+		default:
+			c = rune(0x80 + g.r.Intn(0x2000))
+		}
+		if c >= 0xd800 && c < 0xe000 {
+			c = 0xfffd // surrogates are not characters
+		}
+		if c < 0x80 && strings.ContainsRune(" \t\r\n;{}\"'/*+", c) {
+			c = 'w'
+		}
+		out = append(out, c)
+	}
+	return string(out)
 }
 
 // dq builds a double-quoted string, possibly multi-line, with leading blanks of
